@@ -5,7 +5,7 @@ import GqlModel.Exec
 `Exec.collect c rt sel` (runtime object type `rt`) only collects field nodes that *represent* (`Rep`) fields of the
 flattened field set `Overlap.flat` of `sel` — through inline fragments and named spreads whose type conditions admit
 `rt` — and the static parent type of each collected field admits `rt` (`Adm`): if it is an object type it IS `rt`, if
-it is an interface `rt` implements it. `GInv` is the invariant of the collected groups. -/
+it is an interface, it is `rt` itself or `rt` implements it. `GInv` is the invariant of the collected groups. -/
 namespace GqlModel.OverlapExec
 open GqlModel GqlModel.Validate GqlModel.Validate.Graph GqlModel.Validate.Overlap
 
@@ -24,7 +24,7 @@ theorem Rep.key {a : FieldOcc} {n : ENode} (h : Rep a n) : a.node.key = n.key :=
 
 /-- the static parent type `m` admits the runtime object type `rt` -/
 def Adm (s : Schema) (rt m : String) : Prop :=
-  (s.objectT m = true → m = rt) ∧ (s.isInterface m = true → s.isPossibleType m rt = true)
+  (s.objectT m = true → m = rt) ∧ (s.isInterface m = true → m = rt ∨ s.isPossibleType m rt = true)
 
 def PtAdm (s : Schema) (rt : String) (pt : Option String) : Prop := ∀ m, pt = some m → Adm s rt m
 
@@ -42,7 +42,7 @@ theorem isObject_of_objectT {s : Schema} {m : String} (h : s.objectT m = true) (
     · rw [if_neg hc] at h
       cases td <;> simp_all
 
-theorem adm_of_cond {s : Schema} {rt : String} (hrt : s.isObject rt = true) {t : TypeRef} {m : String}
+theorem adm_of_cond {s : Schema} {rt : String} {t : TypeRef} {m : String}
     (hn : namedOf s t = some m) (hc : Exec.condApplies s (some t) rt = true) : Adm s rt m := by
   have hm : t.namedName = m := by
     cases t with
@@ -67,16 +67,10 @@ theorem adm_of_cond {s : Schema} {rt : String} (hrt : s.isObject rt = true) {t :
       cases hfm : s.find? m with
       | none => simp [hfm] at hio
       | some td => cases td <;> simp_all
-  · intro hi
+  · intro _
     rcases hor with h | h
-    · exfalso
-      subst h
-      unfold Schema.isInterface at hi
-      unfold Schema.isObject at hrt
-      cases hfm : s.find? m with
-      | none => simp [hfm] at hi
-      | some td => cases td <;> simp_all
-    · exact h.2
+    · exact .inl h
+    · exact .inr h.2
 
 variable (s : Schema) (d : Document)
 
@@ -123,11 +117,8 @@ def ExpandOK (U : FieldOcc → Prop) (rt : String)
     (expand : String → Exec.Groups × List String → Exec.Groups × List String) : Prop :=
   ∀ r acc, (∀ a, FlatFrag (e s d) r a → U a) → GInv s U rt acc.1 → GInv s U rt (expand r acc).1
 
-variable (c : Exec.Ctx) (hs : c.schema = s)
-include hs
-
 mutual
-theorem collectSel_inv (U : FieldOcc → Prop) (rt : String) (hrt : s.isObject rt = true)
+theorem collectSel_inv (c : Exec.Ctx) (hs : c.schema = s) (U : FieldOcc → Prop) (rt : String)
     (expand : String → Exec.Groups × List String → Exec.Groups × List String) (hex : ExpandOK s d U rt expand) :
     ∀ (x : Selection) (pt : Option String) (acc : Exec.Groups × List String), PtAdm s rt pt → SubSel s d U pt x →
       GInv s U rt acc.1 → GInv s U rt (Exec.collectSel c rt expand x acc).1
@@ -142,36 +133,111 @@ theorem collectSel_inv (U : FieldOcc → Prop) (rt : String) (hrt : s.isObject r
     split
     · rename_i hcond
       simp only [Bool.and_eq_true] at hcond
-      refine collectSet_inv U rt hrt expand hex ss _ acc ?_ ⟨fun a ha => hsub.1 a ha, fun r hr => hsub.2 r hr⟩ hg
+      refine collectSet_inv c hs U rt expand hex ss _ acc ?_ ⟨fun a ha => hsub.1 a ha, fun r hr => hsub.2 r hr⟩ hg
       cases tc with
       | none => exact hpt
       | some t =>
         intro m hm
-        exact adm_of_cond hrt hm (hs ▸ hcond.2)
+        exact adm_of_cond hm (hs ▸ hcond.2)
     · exact hg
   | .spread nm dirs loc, pt, acc, hpt, hsub, hg => by
     simp only [Exec.collectSel]
     split
     · exact hex nm.value acc (hsub.2 nm.value (by simp [shallowSel])) hg
     · exact hg
-theorem collectSet_inv (U : FieldOcc → Prop) (rt : String) (hrt : s.isObject rt = true)
+theorem collectSet_inv (c : Exec.Ctx) (hs : c.schema = s) (U : FieldOcc → Prop) (rt : String)
     (expand : String → Exec.Groups × List String → Exec.Groups × List String) (hex : ExpandOK s d U rt expand) :
     ∀ (x : SelectionSet) (pt : Option String) (acc : Exec.Groups × List String), PtAdm s rt pt → SubSet s d U pt x →
       GInv s U rt acc.1 → GInv s U rt (Exec.collectSet c rt expand x acc).1
   | .mk sels l, pt, acc, hpt, hsub, hg => by
     simp only [Exec.collectSet]
-    exact collectList_inv U rt hrt expand hex sels pt acc hpt hsub hg
-theorem collectList_inv (U : FieldOcc → Prop) (rt : String) (hrt : s.isObject rt = true)
+    exact collectList_inv c hs U rt expand hex sels pt acc hpt hsub hg
+theorem collectList_inv (c : Exec.Ctx) (hs : c.schema = s) (U : FieldOcc → Prop) (rt : String)
     (expand : String → Exec.Groups × List String → Exec.Groups × List String) (hex : ExpandOK s d U rt expand) :
     ∀ (x : List Selection) (pt : Option String) (acc : Exec.Groups × List String), PtAdm s rt pt → SubSels s d U pt x →
       GInv s U rt acc.1 → GInv s U rt (Exec.collectList c rt expand x acc).1
   | [], pt, acc, _, _, hg => by simpa [Exec.collectList] using hg
   | x :: xs, pt, acc, hpt, hsub, hg => by
     simp only [Exec.collectList]
-    refine collectList_inv U rt hrt expand hex xs pt _ hpt
+    refine collectList_inv c hs U rt expand hex xs pt _ hpt
       ⟨fun a ha => hsub.1 a (by simp [directSels, ha]), fun r hr => hsub.2 r (by simp [shallowSels, hr])⟩ ?_
-    exact collectSel_inv U rt hrt expand hex x pt acc hpt
+    exact collectSel_inv c hs U rt expand hex x pt acc hpt
       ⟨fun a ha => hsub.1 a (by simp [directSels, ha]), fun r hr => hsub.2 r (by simp [shallowSels, hr])⟩ hg
 end
+
+/-- the executor's fragment map and `ValidationContext.Fragment` agree (unique fragment names) -/
+theorem frag_lookup (hnd : (fragNames (fragDefs d)).Nodup) (c : Exec.Ctx) (hf : c.frags = d.fragments) {n : String}
+    {tc : TypeRef} {sel : SelectionSet} (h : c.frag? n = some (tc, sel)) :
+    ∃ f, lookupFrag (fragDefs d) n = some f ∧ f.typeCond = tc ∧ f.sel = sel := by
+  unfold Exec.Ctx.frag? at h
+  cases hl : (c.frags.filter (fun p => p.1 == n)).getLast? with
+  | none => simp [hl] at h
+  | some p =>
+    obtain ⟨k, df⟩ := p
+    rw [hl] at h
+    have hm := List.mem_filter.mp (List.mem_of_getLast? hl)
+    have hk : k = n := by simpa using hm.2
+    subst hk
+    cases df with
+    | fragment nm t ds sl l =>
+      simp only [Option.some.injEq, Prod.mk.injEq] at h
+      obtain ⟨rfl, rfl⟩ := h
+      have hmem : (k, Definition.fragment nm t ds sl l) ∈ d.fragments := hf ▸ hm.1
+      simp only [Document.fragments, List.mem_filterMap] at hmem
+      rcases hmem with ⟨df, hdf, hmatch⟩
+      cases df with
+      | fragment nm' t' ds' sl' l' =>
+        simp at hmatch
+        obtain ⟨hk, h1, h2, h3, h4, h5⟩ := hmatch
+        have hin : (⟨nm', t', ds', sl', l'⟩ : Frag) ∈ fragDefs d := by
+          simp only [fragDefs, List.mem_filterMap]
+          exact ⟨_, hdf, rfl⟩
+        have := lookupFrag_self hnd hin
+        simp only at this
+        rw [hk] at this
+        exact ⟨_, this, h2, h4⟩
+      | _ => simp at hmatch
+    | _ => simp at h
+
+theorem expandSpread_ok (hnd : (fragNames (fragDefs d)).Nodup) (c : Exec.Ctx) (hs : c.schema = s)
+    (hf : c.frags = d.fragments) (U : FieldOcc → Prop) (rt : String) :
+    ∀ fuel, ExpandOK s d U rt (Exec.expandSpread c rt fuel) := by
+  intro fuel
+  induction fuel with
+  | zero => intro r acc _ hg; simpa [Exec.expandSpread] using hg
+  | succ fuel ih =>
+    intro r acc hU hg
+    obtain ⟨g, vis⟩ := acc
+    simp only [Exec.expandSpread]
+    split
+    · exact hg
+    · cases hfr : c.frag? r with
+      | none => exact hg
+      | some p =>
+        obtain ⟨tc, sel⟩ := p
+        simp only
+        rcases frag_lookup d hnd c hf hfr with ⟨f, hl, rfl, rfl⟩
+        split
+        · rename_i hcond
+          refine collectSet_inv s d c hs U rt _ ih f.sel (namedOf s f.typeCond) _ ?_ ⟨?_, ?_⟩ hg
+          · intro m hm
+            exact adm_of_cond hm (hs ▸ hcond)
+          · intro a ha
+            exact hU a ⟨r, f, .refl _, hl, ha⟩
+          · intro g' hg' a ha
+            exact hU a (ha.step (shEdge_iff.2 ⟨f, hl, hg'⟩))
+        · exact hg
+
+/-- **CollectFields collects fields of the flattened set whose parent types admit the runtime type** -/
+theorem collect_inv (hnd : (fragNames (fragDefs d)).Nodup) (c : Exec.Ctx) (hs : c.schema = s)
+    (hf : c.frags = d.fragments) (U : FieldOcc → Prop) (rt : String) (sel : SelectionSet) (pt : Option String)
+    (acc : Exec.Groups × List String) (hpt : PtAdm s rt pt) (hsub : SubSet s d U pt sel) (hg : GInv s U rt acc.1) :
+    GInv s U rt (Exec.collect c rt sel acc).1 :=
+  collectSet_inv s d c hs U rt _ (expandSpread_ok s d hnd c hs hf U rt _) sel pt acc hpt hsub hg
+
+/-- a selection set is inside the universe of its own flattened field set -/
+theorem subSet_flat (pt : Option String) (sel : SelectionSet) :
+    SubSet s d (fun a => a ∈ flat (e s d) pt sel) pt sel :=
+  ⟨fun _ ha => mem_flat_of_direct ha, fun _ hr _ ha => mem_flat_of_flatFrag pt hr ha⟩
 
 end GqlModel.OverlapExec
